@@ -169,10 +169,12 @@ Definition lua_rep (s : bytes) (n : Z) (sep : bytes) : lres bytes :=
    (user address space), so xalloc panics with "out of memory". *)
 Definition ALLOC_LIMIT : Z := 2 ^ 47.
 
-(* string.create(size): check(size > 0); xalloc(size+1) where size+1 wraps to 0 for size = 2^64-1, the
-   allocator then returns nilptr without panicking and  s.data[size] = 0  writes through it *)
+(* string.create(size) (after c3dc3fb): check(size > 0); assert(size + 1 > size) in usize, so the one size whose
+   size + 1 wraps to 0 is rejected; then xalloc(size+1), which panics ("out of memory") when it fails.
+   The model keeps the outcome "allocation of 0 bytes, terminator written through nilptr" to prove it unreachable. *)
 Definition nl_create (size : Z) : res unit :=
   if size =? 0 then Trap
+  else if negb (size <? u64 (size + 1)) then Trap          (* 'string size too large' *)
   else if u64 (size + 1) =? 0 then Unsafe
   else if ALLOC_LIMIT <? size then Trap
   else Val tt.
